@@ -869,8 +869,8 @@ fn strs(x: &[&str]) -> Vec<String> {
     x.iter().map(|s| s.to_string()).collect()
 }
 
-/// all ordered lists without repetition of length 1..=3 over `names`
-fn ordered_lists(names: &[&str]) -> Vec<Vec<String>> {
+/// all ordered lists without repetition of length 1..=max_len over `names`
+fn ordered_lists(names: &[&str], max_len: usize) -> Vec<Vec<String>> {
     let mut out = Vec::new();
     fn rec(names: &[&str], cur: &mut Vec<usize>, len: usize, out: &mut Vec<Vec<String>>) {
         if cur.len() == len {
@@ -885,7 +885,7 @@ fn ordered_lists(names: &[&str]) -> Vec<Vec<String>> {
             }
         }
     }
-    for len in 1..=3.min(names.len()) {
+    for len in 1..=max_len.min(names.len()) {
         rec(names, &mut Vec::new(), len, &mut out);
     }
     out
@@ -910,7 +910,7 @@ fn listener_sets(names: &[&str]) -> Vec<Vec<String>> {
 fn grid_pairs() -> Vec<(Vec<String>, Vec<String>)> {
     let mut out = Vec::new();
     let ls = listener_sets(&U4);
-    for d in ordered_lists(&U4) {
+    for d in ordered_lists(&U4, 4) {
         for l in &ls {
             out.push((d.clone(), l.clone()));
         }
@@ -1527,7 +1527,9 @@ pub fn run(ctx: &mut Ctx) {
     let mut msg_trailing_dropped = 0u64;
     let mut msg_sample: Vec<Value> = Vec::new();
     let msg_names: &[&str] = if thorough { &["/a", "/b", "/ab", "/a/1", "<300>"] } else { &U4 };
-    let msg_lists = ordered_lists(msg_names);
+    // main + up to 3 (quick) / 4 (thorough) fallbacks: the order in which fallbacks are proposed only shows from the
+    // third fallback on
+    let msg_lists = ordered_lists(msg_names, if thorough { 5 } else { 4 });
     let msg_sets = listener_sets(msg_names);
     for list in &msg_lists {
         for set in &msg_sets {
@@ -1781,7 +1783,7 @@ fn fallback_mapping(ctx: &mut Ctx, evals: &mut u64, all: &mut HashSet<u128>) {
     let mut runs = 0u64;
     let mut via_fallback = 0u64;
     let mut sample = None;
-    for list in ordered_lists(&["/a", "/b", "/ab", "/a/1", "<300>"]) {
+    for list in ordered_lists(&["/a", "/b", "/ab", "/a/1", "<300>"], 3) {
         for supported in &list {
             let replay = json!({"kind": "fallback-map", "names": list, "supported": supported});
             all.insert(e1::hash128(replay.to_string().as_bytes()));
